@@ -59,6 +59,9 @@ def make_jobs(prop, tier, seed):
             jobs.append({"kind": "pbound", "prop": prop, "seed": seed * 104729 + j, "k": 2, "budget": 2500})
     else:
         jobs.append({"kind": "pbound", "prop": prop, "seed": seed * 104729, "k": 1, "budget": 300})
+    # hostile programs (raising callbacks and handlers, re-entrant callbacks, wait(till=...) of every kind): monitors only
+    for j in range(3 if tier == "quick" else 16):
+        jobs.append({"kind": "explore", "hostile": True, "no_driver": True, "prop": prop, "seed": seed * 4256233 + j, "scenarios": 80, "schedules": 4})
     jobs.extend(plug.line_jobs(prop, tier, seed, scenarios=8, schedules=6))
     return jobs
 
@@ -104,11 +107,11 @@ def _run_batch(prop, items, use_driver=True):
             r = item[4]
         else:
             chooser = ds.replay_chooser(choices) if choices is not None else _mk_chooser(ck, cs, 40 * len(sc["threads"]))
-            r = m1.run_scenario(sc, chooser=chooser, seed=cs)
+            r = m1.run_hostile(sc, chooser=chooser, seed=cs) if sc.get("hostile") else m1.run_scenario(sc, chooser=chooser, seed=cs)
         res["evaluations"] += 1
         res["transitions"] += r["steps"]
         res["context_switches"] += r["switches"]
-        sh = m1.shape(sc)
+        sh = m1.shape_hostile(sc) if sc.get("hostile") else m1.shape(sc)
         res["shapes"][sh] = res["shapes"].get(sh, 0) + 1
         res["extra"]["outcome_" + r["outcome"]] = res["extra"].get("outcome_" + r["outcome"], 0) + 1
         if r["switches"] > 0:
@@ -121,6 +124,9 @@ def _run_batch(prop, items, use_driver=True):
             res["mon_fail"].append({"msg": mons[0], "all": mons, "replay": rp, "signature": None})
         if r["outcome"] == "hung":
             res.setdefault("infra", []).append("hung run")
+        if sc.get("hostile"):
+            meta.append((sc, r))
+            continue            # no trace for the model: monitors only
         text.append("run %d m1 never=%d raises=%s" % (idx, 1 if sc["never"] else 0, ",".join(str(k) for k in sc["raises"])))
         text.extend(r["lines"])
         for ln in r["lines"]:
@@ -238,7 +244,7 @@ def _run_job(job):
         profile = [8, 1, 1, 0, 0, 0]      # several threads waiting on one signal, rarely a go()
     items = []
     for _ in range(job["scenarios"]):
-        sc = m1.gen_scenario(rng, profile=profile)
+        sc = m1.gen_hostile(rng) if job.get("hostile") else m1.gen_scenario(rng, profile=profile)
         for j in range(job["schedules"]):
             items.append((sc, ["rand", "pct", "sticky", "rand"][j % 4], rng.randrange(1 << 30), None))
     return _run_batch(prop, items, use_driver=not job.get("no_driver"))
@@ -286,6 +292,8 @@ def shrink(prop, failure):
     from . import m1_signal as m1
     rp = failure["replay"]
     sc = rp["scenario"]
+    if sc.get("hostile") or rp.get("lines"):
+        return failure          # kept as found
     choices = list(rp["choices"])
 
     def fails(sc, choices):
